@@ -177,13 +177,18 @@ def run_case(desc, ctx):
         same = [v for v in range(n) if comp[v] == comp[start]]
         dref = graphs.dijkstra(n, adj, start)
         hops = graphs.bfs(n, hop, start)
-        kind = ["int", "list", "set", "tuple", "self", "many", "repeated", "frozenset", "index_array"][(q + desc["seed"]) % 9]
+        kind = ["int", "list", "set", "tuple", "self", "many", "repeated", "frozenset", "index_array", "neighbours"][(q + desc["seed"]) % 10]
         if kind == "int":
             tg = [rng.choice(same)]
             arg = tg[0]
         elif kind == "self":
             tg = [start]
             arg = [start]
+        elif kind == "neighbours" and hop.get(start):
+            # every target is joined to the start by an edge (with caller-supplied weights the direct edge need not be the cheapest way)
+            nb_ = sorted(hop[start])
+            tg = rng.sample(nb_, min(len(nb_), rng.randint(1, 3)))
+            arg = tg[0] if (len(tg) == 1 and rng.random() < 0.5) else list(tg)
         elif kind == "many":
             tg = rng.sample(same, min(len(same), 6))
             arg = list(tg)
@@ -196,7 +201,8 @@ def run_case(desc, ctx):
         else:
             tg = rng.sample(same, min(len(same), rng.randint(1, 3)))
             # any collection of vertex indices: also a frozenset, or the index array that np.where / np.flatnonzero hand back
-            arg = {"list": list, "set": set, "tuple": tuple, "frozenset": frozenset, "index_array": lambda t: np.array(t, dtype=np.int64)}[kind](tg)
+            arg = {"list": list, "set": set, "tuple": tuple, "frozenset": frozenset, "index_array": lambda t: np.array(t, dtype=np.int64),
+                   "neighbours": list}[kind](tg)
         ctx.cls("targets:" + kind)
         export = rng.random() < 0.25
         ok, res = ctx.call("shortest_path[%s]" % ("one" if mode == "one" else "length" if mode == "length" else "custom"),
@@ -235,6 +241,12 @@ def run_case(desc, ctx):
         sarg = {0: list, 1: set, 2: tuple}[q % 3](S)
         export = rng.random() < 0.25
         ok, res = ctx.call("shortest_path_to_vertex_set[%s]" % kset, M.processing.shortest_path_to_vertex_set, m, start, sarg, warg, export, monitor="set", abort=False)
+        if ok and isinstance(sarg, list) and q % 2 == 0:
+            # the caller keeps its list of targets and asks again (a loop over several start vertices with one fixed target list): same answer
+            ctx.cls("set:same_list_object_used_for_a_second_query")
+            ok2, res2 = ctx.call("shortest_path_to_vertex_set[%s]" % kset, M.processing.shortest_path_to_vertex_set, m, start, sarg, warg, False, monitor="set", abort=False)
+            ctx.check(ok2 and sarg == S, "set", "vertex_set", "target_list_of_the_caller_changed_or_second_query_fails",
+                      "a second query with the caller's own list of targets fails, or the list was modified by the first one", targets_now=list(sarg), targets=S)
         if ok:
             try:
                 if export:
